@@ -34,9 +34,9 @@ import (
 // Stmt is one statement of a method body.
 //
 //	fill    N plain lines (declarations, calls, comments, blank lines)
-//	if      condition spanning H lines; Compact = brace-less with the statement on the
-//	        condition's last line; ElseIfs else-if branches (condition height ElseH), Else;
-//	        Inner statements inside the then-block
+//	if      condition spanning H lines; Compact = brace-less with the statement (and the whole
+//	        else-if chain) on the condition's last line; ElseIfs else-if branches (condition
+//	        height ElseH, not used when Compact), Else; Inner statements inside the then-block
 //	switch  classic switch with N cases (+ default); Compact = on one line; Inner inside case 0
 //	for, foreach, while (condition height H), do, try, sync, lambda: containers for Inner
 type Stmt struct {
@@ -219,7 +219,15 @@ func (w *jw) stmt(depth int, s Stmt, top bool, t *methodTruth) {
 	case "if":
 		var a, b int
 		if s.Compact {
-			a, b = w.cond(depth, "if ", s.H, s.CloseOwn, fmt.Sprintf(" n0 -= %d;", w.fresh()))
+			// brace-less; an else-if chain, if any, follows on the same line
+			tail := fmt.Sprintf(" n0 -= %d;", w.fresh())
+			for i := 0; i < s.ElseIfs; i++ {
+				tail += fmt.Sprintf(" else if (n0 > %d) n0 -= %d;", w.fresh(), w.fresh())
+			}
+			if s.Else {
+				tail += " else n0++;"
+			}
+			a, b = w.cond(depth, "if ", s.H, s.CloseOwn, tail)
 		} else {
 			a, b = w.cond(depth, "if ", s.H, s.CloseOwn, " {")
 			if len(s.Inner) == 0 {
@@ -892,12 +900,6 @@ func tail(s string, n int) string {
 // ---------------------------------------------------------------------------------------
 // classification
 
-type vector struct {
-	L, P, I, S int
-	H          []int
-	GS         bool
-}
-
 func near(v, threshold int) bool { return v >= threshold-1 && v <= threshold+1 }
 
 func classify(c Case, truths []fileTruth, want []finding, mode string) pbt.Verdict {
@@ -977,10 +979,11 @@ func classify(c Case, truths []fileTruth, want []finding, mode string) pbt.Verdi
 	if len(want) == 0 {
 		labels["no_finding_expected"] = true
 	}
-	for _, sizes := range groups {
+	for kind, sizes := range groups {
 		for i := 1; i < len(sizes); i++ {
 			if sizes[i-1] < sizes[i] {
 				labels["group_needs_reordering"] = true
+				labels["reorder_"+kind] = true
 			}
 		}
 	}
@@ -1015,6 +1018,9 @@ func countDecoys(body []Stmt, top bool, labels map[string]bool) {
 		}
 		if !top && s.Kind == "switch" {
 			labels["decoy_nested_switch"] = true
+		}
+		if s.Kind == "decoyline" {
+			labels["decoy_container_on_one_line"] = true
 		}
 		if s.Kind == "if" && s.ElseIfs > 0 {
 			labels["decoy_else_if"] = true
@@ -1182,6 +1188,9 @@ func sweepMethod(name string, l, p, i, s, h int, sc SweepCase, withDecoys bool) 
 		if k == 0 {
 			st = Stmt{Kind: "if", H: h, CloseOwn: sc.CloseOwn, Compact: true}
 		}
+		if k == 1 && withDecoys {
+			st.ElseIfs, st.Else = 3, true // else-if branches are not top-level ifs
+		}
 		body = append(body, st)
 		if k < s {
 			body = append(body, Stmt{Kind: "switch", Compact: true})
@@ -1271,7 +1280,7 @@ func sweepFiles(sc SweepCase) []File {
 				f.Dir = "c"
 				f.Interface = iface
 				for k := 0; k < m; k++ {
-					mm := trivialMethod("normal", fmt.Sprintf("work%d", k))
+					mm := trivialMethod("normal", fmt.Sprintf("%s%d", methodNames[k%len(methodNames)], k))
 					if iface {
 						mm = Method{Kind: "abstract", Name: mm.Name, Params: k % 3}
 					}
@@ -1355,8 +1364,9 @@ func checkSweep(sc SweepCase) pbt.Verdict {
 // generators
 
 var (
-	classNames  = []string{"Order", "Invoice", "Ledger", "Parser", "Engine", "Router", "Cache", "Account", "Planner", "Widget"}
-	methodNames = []string{"process", "compute", "load", "render", "update", "build", "validate", "handle", "apply", "execute", "merge", "flush"}
+	classNames = []string{"Order", "Invoice", "Ledger", "Parser", "Engine", "Router", "Cache", "Account", "Planner", "Widget"}
+	// ordinary method names; some share letters with get/set without being getters/setters
+	methodNames = []string{"process", "generate", "load", "send", "update", "build", "select", "handle", "apply", "gather", "merge", "serve"}
 	dirs        = []string{"", "", "core/model", "src/main/java/com/acme", "app"}
 	modsPool    = []string{"public", "public", "private", "protected", "", "public static", "public final", "public synchronized", "static",
 		"@Override public", "@Deprecated protected", "public <T>", "private static <K, V>"}
@@ -1396,6 +1406,10 @@ func genIf(t *rapid.T, depth int) Stmt {
 	}
 	if rapid.IntRange(0, 2).Draw(t, "compact") == 2 {
 		s.Compact = true
+		if rapid.IntRange(0, 3).Draw(t, "compactChain") == 3 {
+			s.ElseIfs = rapid.IntRange(1, 9).Draw(t, "elseIfs")
+			s.Else = rapid.Bool().Draw(t, "else")
+		}
 		return s
 	}
 	if rapid.IntRange(0, 3).Draw(t, "hasElseIf") == 3 {
@@ -1677,6 +1691,33 @@ func genSortCase(t *rapid.T) Case {
 		}
 		c.Files = append(c.Files, f)
 	}
+	// class-level sized kinds: two classes whose sizes ascend in walk order
+	if rapid.IntRange(0, 2).Draw(t, "dataPair") > 0 {
+		g1 := rapid.IntRange(1, 3).Draw(t, "dataSmall")
+		g2 := g1 + rapid.IntRange(0, 3).Draw(t, "dataMore")
+		for i, g := range []int{g1, g2} {
+			f := File{Name: fmt.Sprintf("Record%c", 'A'+i), Fields: 2}
+			for k := 0; k < g; k++ {
+				kind := "getter"
+				if k%2 == 1 {
+					kind = "setter"
+				}
+				f.Methods = append(f.Methods, trivialMethod(kind, fmt.Sprintf("field%d", k)))
+			}
+			c.Files = append(c.Files, f)
+		}
+	}
+	if rapid.IntRange(0, 2).Draw(t, "largePair") == 2 {
+		m1 := rapid.IntRange(19, 21).Draw(t, "largeSmall")
+		m2 := m1 + rapid.IntRange(0, 2).Draw(t, "largeMore")
+		for i, m := range []int{m1, m2} {
+			f := File{Name: fmt.Sprintf("Service%c", 'A'+i), Fields: 2}
+			for k := 0; k < m; k++ {
+				f.Methods = append(f.Methods, trivialMethod("normal", fmt.Sprintf("step%d", k)))
+			}
+			c.Files = append(c.Files, f)
+		}
+	}
 	c.Ignore = genIgnore(t)
 	c.RelDir = rapid.Bool().Draw(t, "relDir")
 	return c
@@ -1695,12 +1736,13 @@ func genSweep(t *rapid.T) SweepCase {
 
 func init() {
 	pbt.SetProperty("C10")
-	pbt.Describe("Conventional Java classes/interfaces printed from a parameter vector by a line-tracking printer: per method the distance L between declaration line and closing brace, parameter count P, top-level if count I and classic switch count S (with nested ifs/switches, else-if chains, ifs/switches inside loops, try, synchronized and lambda bodies, and multi-line loop conditions as decoys that must not count), heights H of top-level if conditions; per class M ordinary methods and G getters/setters; 1-4 files per tree, x ignore lists (subsets of the seven kinds, sometimes other names) x sort on/off. Sub-check sweep: bounded-exhaustive product L{29..32} x P{4..7} x I{6..9} x S{6..9} x H{2..5} (1024 one-method classes) + M{0,1,18..21} x G{0,1,3} x class/interface + interface P{4..7}, each chunk judged under all 128 ignore subsets and SortSmellByType. Sub-checks vec (API) and cli (`coca bs -p DIR [-x ..] [-s type]`, bs.json) draw random vectors biased to the thresholds. Oracle: findings of the seven kinds computed from the printer's line record (kind, file, line for method-level kinds, size for sized kinds); other kinds are ignored. Non-trivial = some parameter at threshold-1/threshold/threshold+1 (L 29-31, P 4-6, M 19-21, I/S 7-9, H 3-5, or a class with 0/1 methods); distinct = the vector with ignore list, sort flag and entry point.",
+	pbt.Describe("Conventional Java classes/interfaces printed from a parameter vector by a line-tracking printer: per method the distance L between declaration line and closing brace, parameter count P, top-level if count I and classic switch count S (with nested ifs/switches, else-if chains written over several lines or on one line, ifs/switches inside for/while/do/try/synchronized/lambda bodies, and multi-line loop conditions as decoys that must not count), heights H of top-level if conditions; per class M ordinary methods (some named generate/select/send/serve...) and G getters/setters; 1-4 files per tree, optionally a package-info.java, x ignore lists (subsets of the seven kinds, sometimes other names) x sort on/off. Sub-check sweep (bounded-exhaustive, one evaluation): quick tier L{29..32} x P{4..7} x I{6..9} x H{2..5} without switches (256 one-method classes) + I{6..9} x S{6..9} on the diagonal of (L,P,H) (64); thorough tier the whole product L x P x I x S{0,6..9} x H (1280); both + M{0,1,18..21} x G{0,1,3} x class/interface (36) + interface P{4..7}; every chunk of 64 files is judged under all 128 ignore subsets, each with SortSmellByType. Sub-checks vec (API: BadSmellApp.AnalysisPath + IdentifyBadSmell + SortSmellByType) and cli (`coca bs -p DIR [-x kinds] [-s type]`, bs.json; biased to groups whose sizes ascend in report order) draw random vectors biased to the thresholds. Oracle: findings of the seven kinds computed from the printer's line record (kind, file, line for method-level kinds, size for sized kinds); other kinds are ignored. Non-trivial = some parameter at threshold-1/threshold/threshold+1 (L 29-31, P 4-6, M 19-21, I/S 7-9, H 3-5, or a class with 0/1 methods); distinct = the vector with ignore list, sort flag and entry point.",
 		"declarations are on one line without separate-line annotations; one top-level type per file; no nested types, varargs or default methods; constructors only where they cannot affect a method count near a threshold",
 		"getters/setters are conventional (getX() / setX(v), short bodies); ordinary method names do not start with get/set",
 		"else-if branches, ifs inside any nested block and loop conditions do not count as top-level ifs (DESIGN C10)",
 		"graphConnectedCall findings (third-party state leak, DESIGN section 6 row 22) are left out of every comparison",
-		"a file without any type (package-info.java) must produce no finding of the seven kinds")
+		"a file without any type (package-info.java) must produce no finding of the seven kinds",
+		"the quick tier's sweep is a reduced cross because the shipped grammar needs ~6 ms per classic switch statement in full LL mode; the generated files are validated with the shipped parser in two stages (SLL, then LL on error)")
 	pbt.Register("sweep", 1, 1, genSweep, checkSweep)
 	pbt.Register("vec", 200, 1500, genCase, checkAPI)
 	pbt.Register("cli", 30, 100, genSortCase, checkCLI)
